@@ -209,9 +209,16 @@ func (e *endpoint) dispatch() (bool, *tcpip.Error) {
 		return false, err
 	}
 	//如果比头部长度还小，直接丢弃
-	if n <= e.hdrSize {
-		log.Printf("@链路层 fdbased: read %d bytes < header bytest %d,比头部长度还小直接丢弃", n, e.hdrSize)
+	if n == 0 {
+		// End of file: the descriptor was closed, stop dispatching.
 		return false, nil
+	}
+	if n <= e.hdrSize {
+		// A runt frame (no payload after the link header) is dropped; it
+		// must not stop the dispatch loop, or one such frame from the
+		// network would end all reception on this NIC.
+		log.Printf("@链路层 fdbased: read %d bytes < header bytest %d,比头部长度还小直接丢弃", n, e.hdrSize)
+		return true, nil
 	}
 	var (
 		p                             tcpip.NetworkProtocolNumber
